@@ -462,7 +462,16 @@ def compile_recipe(rec: Dict[str, Any], version: int, optimize: Optional[Dict[st
         mode = pt.Mode.Application if rec.get("mode", "A") == "A" else pt.Mode.Signature
         kw = {}
         if optimize is not None:
-            kw["optimize"] = pt.OptimizeOptions(**optimize)
+            okw = {k: v for k, v in optimize.items() if not k.startswith("_")}
+            kw["optimize"] = pt.OptimizeOptions(**okw)
+            if optimize.get("_reused"):
+                # the SAME options object has already been used for another program (as Router.compile_program and an
+                # approval / clear-state pair do): one with an explicitly numbered and an index-taken variable
+                r7 = pt.ScratchVar(pt.TealType.uint64, 7)
+                dv = pt.DynamicScratchVar(pt.TealType.uint64)
+                ov = pt.ScratchVar(pt.TealType.uint64)
+                primer = pt.Seq(r7.store(pt.Int(1)), ov.store(r7.load()), dv.set_index(ov), pt.Return(dv.load() + r7.load()))
+                pt.compileTeal(primer, mode, version=version, optimize=kw["optimize"])
         return pt.compileTeal(ast, mode, version=version, assembleConstants=assemble_constants, **kw)
     finally:
         sys.setrecursionlimit(saved)
